@@ -35,6 +35,7 @@ def _absent_branches(loop, member):
 
 
 def check(prog, run):
+    check_unknown_variable(prog, run, "U1")
     check_non_finite_guard(prog, run, "I5")
     cv = prog.get_func(CV, "coerce_value")
     cio = prog.get_func(CV, "_coerce_input_object")
@@ -579,3 +580,46 @@ def check_non_finite_guard(prog, run, rule_id):
                        "coerce_float %s the value %r (guard `%s`): %s" % ("refuses" if refused else "accepts", sample,
                                                                      " ".join(ast.unparse(guards[0].test).split()),
                                                                      "a finite number is rejected" if refused else "a non-finite number reaches resolvers and cannot be serialised as strict JSON"))
+
+
+def check_unknown_variable(prog, run, rule_id):
+    """A variable the request does not provide is reported as unknown, never looked up."""
+    from .. import boolx
+    import re
+    VFA = "py_gql.utilities.value_from_ast"
+    r = run.rule(rule_id, "value_from_ast._extract_variable decided for (a variables mapping is given, it contains the name): without a "
+                          "mapping or without the name every execution raises UnknownVariable and none subscripts the mapping; with the "
+                          "name present the value is read - a missing variable must surface as the library's error, not as a KeyError "
+                          "out of the coercion of a literal", 3)
+    f = prog.get_func(VFA, "_extract_variable")
+    run.looked_at(f)
+    mp = f.params[-1]
+    for given, present in ((False, False), (True, False), (True, True)):
+        def decide(t, given=given, present=present):
+            if t == mp:
+                return given
+            if t == "%s is None" % mp:
+                return not given
+            if re.match(r"^[\w.]+ in %s$" % re.escape(mp), t):
+                return present
+            return None
+        try:
+            ev, exits = boolx.walk_under(f.node, decide)
+        except ValueError as e:
+            raise AnalysisError("C07.%s: %s" % (rule_id, e))
+        kinds = set()
+        for kind, st, env in exits:
+            if kind == "raise":
+                exc = st.exc.func if isinstance(st.exc, ast.Call) else st.exc
+                kinds.add("raise:" + (exc.id if isinstance(exc, ast.Name) else ast.unparse(exc).split(".")[-1]))
+            else:
+                kinds.add(kind)
+        subs = any(isinstance(node, ast.Subscript) and isinstance(node.value, ast.Name) and node.value.id == mp for _i, (node, _e) in ev.items())
+        r.instance("mapping given=%s, name present=%s -> %s, mapping subscripted: %s" % (given, present, sorted(kinds), subs))
+        if not present and (kinds != {"raise:UnknownVariable"} or subs):
+            run.report(r, "%s:_extract_variable:missing-variable(%s)" % (VFA, "no-mapping" if not given else "name-absent"), f.where(),
+                       "with %s _extract_variable %s (outcomes %s): a missing variable is not reported as UnknownVariable" % (
+                           "no variables mapping" if not given else "the name absent from the mapping",
+                           "subscripts the mapping" if subs else "does not always raise UnknownVariable", sorted(kinds)))
+        if present and not subs:
+            run.report(r, "%s:_extract_variable:value-not-read" % VFA, f.where(), "a provided variable's value is never read from the mapping")
